@@ -410,7 +410,19 @@ pub fn uncuttable(rng: &mut Rng) -> (String, &'static str) {
             }
         }
     }
-    match rng.below(6) {
+    match rng.below(8) {
+        6 => {
+            // a `rec` whose body is its own variable (directly, parenthesised, through another rec, through an
+            // alternative of itself): a plain alias cycle, nothing to cut at
+            let body = *rng.pick(&["r", "(r)", "(rec s r)", "((r))", "r | r", "(rec s (s | r))"]);
+            let place = *rng.pick(&["let a = rec r BODY;\nres / on get -> <a>;", "res / on get -> <rec r BODY>;", "let f x = rec r BODY;\nres / on get -> <f {}>;", "let a = { 'p rec r BODY };\nres / on get -> <a>;"]);
+            (place.replace("BODY", body), "rec-alias")
+        }
+        7 => {
+            // a function-valued or content-valued recursion variable
+            let t = *rng.pick(&["let a = rec r (get -> r);\nres /x on a;", "let a = rec r <status=200, r>;\nres / on get -> a;", "let a = rec r 'p r;\nres / on get -> { a };"]);
+            (t.to_owned(), "rec-over-non-schema")
+        }
         0 => {
             let mut s = String::new();
             for i in 0..k {
